@@ -129,6 +129,9 @@ def run(ctx):
     es = T.htable(["-mode", "e2esweep", "-n", 2 if ctx.tier == "thorough" else 1, "-seed", ctx.seed], timeout=1800)
     ctx.cov["statement_size_sweep"] = T.check_e2e_sweep(ctx, es, ("groupby",))
     ctx.cov["statement_size_sweep_note"] = "statements over graphs of 13..4099 (thorough: ..16385) triples, result compared with the spec in Python, not evaluated in Coq"
+    ctx.cov["cells_rendering_checked"] = T.check_renderings(
+        ctx, [c["in"] for c in reds] + [c["out"] for c in reds if c["outcome"] == "ok"] +
+        [c["base"].get("rows") for c in e2e] + [c["res"].get("rows") for c in e2e], "C11")
     T.replay_findings(ctx, "C11", "replay11")
     seen = set()
     for c, v in zip(reds, rc):
